@@ -231,10 +231,26 @@ pub fn replay_may(p: &Program, hist: &[HEv], cfg: &MachineCfg, partial: bool) ->
             }
         }
         tries += 1;
-        if tries > 20_000 || !sc.next_script() {
+        if !sc.next_script() {
+            // every placement of the hidden steps / ambiguous choices was tried
             return Err(first_err.unwrap());
         }
+        if tries > max_tries() {
+            // search budget exhausted: NOT a verdict (an exhausted budget must never be reported
+            // as a violation); counted as a probe
+            REPLAY_INCONCLUSIVE.with(|c| c.set(c.get() + 1));
+            return Ok(Accept { race: false, race_large: false, deadlocked: false, poisoned: false, all_done: false, leak: None, leaks: vec![], results: vec![] });
+        }
     }
+}
+
+thread_local! {
+    /// replays that ran out of search budget (neither accepted nor rejected)
+    pub static REPLAY_INCONCLUSIVE: std::cell::Cell<u64> = std::cell::Cell::new(0);
+}
+
+fn max_tries() -> usize {
+    std::env::var("VERIF_REPLAY_TRIES").ok().and_then(|s| s.parse().ok()).unwrap_or(200_000)
 }
 
 /// All acceptable replays (used when several justifications must be considered, e.g. deadlock).
@@ -259,8 +275,13 @@ pub fn replay_may_any(p: &Program, hist: &[HEv], cfg: &MachineCfg, partial: bool
             }
         }
         tries += 1;
-        if tries > 20_000 || !sc.next_script() {
+        if !sc.next_script() {
             return if accepted { Ok(false) } else { Err(first_err.unwrap()) };
+        }
+        if tries > max_tries() {
+            // budget exhausted: inconclusive, never a violation
+            REPLAY_INCONCLUSIVE.with(|c| c.set(c.get() + 1));
+            return Ok(true);
         }
     }
 }
